@@ -236,6 +236,9 @@ def tlc(module, cfg=None, workers=1, env=None, simulate=None, depth=None, seed=N
     m = _RE_INV.search(out)
     if m:
         res.violated = m.group(1)
+    mt = re.search(r'Temporal property (\S+) was violated', out)
+    if res.violated is None and (mt or 'Temporal properties were violated' in out):
+        res.violated = mt.group(1) if mt else 'temporal'
     if res.violated is None and 'is violated' in out:
         m2 = re.search(r'(\S+) is violated', out)
         res.violated = m2.group(1) if m2 else 'unknown'
